@@ -34,7 +34,7 @@ type Step struct {
 	Empty  bool `json:"empty,omitempty"`
 	// fault plan for the writes this step causes
 	FailNodes []int  `json:"fail_nodes,omitempty"` // node indices whose write fails
-	Mode      string `json:"mode,omitempty"`       // transport | rpc (remote log refuses) ; the local node always fails as "local log refuses"
+	Mode      string `json:"mode,omitempty"`       // transport | rpc (remote log refuses) | lostreply (remote stores, reply lost); the local node always fails as "local log refuses"
 }
 
 type Case struct {
@@ -157,6 +157,7 @@ func run(c Case) (f *failure, nontrivial bool) {
 		setMark()
 		// arm the fault plan
 		failing := map[int]bool{}
+		storedAnyway := map[int]bool{}
 		arm := func() {
 			var unreachable []uint64
 			for _, ni := range st.FailNodes {
@@ -167,6 +168,10 @@ func run(c Case) (f *failure, nontrivial bool) {
 				switch {
 				case ni == 0:
 					cl.Nodes[0].Log.FailNext(1)
+				case st.Mode == "lostreply":
+					// the remote node stores the message, the reply never arrives
+					cl.Nodes[ni].LoseReplies(1)
+					storedAnyway[ni] = true
 				case st.Mode == "rpc":
 					cl.Nodes[ni].Log.FailNext(1)
 				default:
@@ -179,6 +184,7 @@ func run(c Case) (f *failure, nontrivial bool) {
 			cl.SetUnreachable()
 			for _, n := range cl.Nodes {
 				n.Log.FailNext(0)
+				n.LoseReplies(0)
 			}
 		}
 		// expectWrites judges the writes and the acknowledgement of a forwarding step
@@ -188,7 +194,7 @@ func run(c Case) (f *failure, nontrivial bool) {
 			anyFail := false
 			for ni := range cl.Nodes {
 				wantOK := 0
-				if D[ni] && !failing[ni] {
+				if D[ni] && (!failing[ni] || storedAnyway[ni]) {
 					wantOK = 1
 				}
 				if ok[ni] != wantOK {
@@ -392,7 +398,7 @@ func TestRandom(t *testing.T) {
 						st.FailNodes = append(st.FailNodes, b)
 					}
 				}
-				st.Mode = rapid.SampledFrom([]string{"transport", "rpc"}).Draw(t, "mode")
+				st.Mode = rapid.SampledFrom([]string{"transport", "rpc", "lostreply"}).Draw(t, "mode")
 			}
 			c.Steps = append(c.Steps, st)
 		}
@@ -404,7 +410,7 @@ func TestRandom(t *testing.T) {
 // destinations × every mode × QoS 1 and the QoS 2 handshake.
 func TestFaultSubsets(t *testing.T) {
 	for mask := 0; mask < 8; mask++ {
-		for _, mode := range []string{"transport", "rpc"} {
+		for _, mode := range []string{"transport", "rpc", "lostreply"} {
 			var fn []int
 			for b := 0; b < 3; b++ {
 				if mask&(1<<b) != 0 {
@@ -426,5 +432,5 @@ func TestFaultSubsets(t *testing.T) {
 			check(t, c, "fault-subset-enumeration")
 		}
 	}
-	ev.Exhaustive("3 nodes each hosting a matching subscriber: all 8 subsets of failing destinations x {peer unreachable, remote log refuses} (local node: local log refuses) for a QoS 1 publish, a QoS 2 PUBREL, a QoS 0 publish, and the same with RETAIN and a zero-length payload (QoS 2 with DUP set)")
+	ev.Exhaustive("3 nodes each hosting a matching subscriber: all 8 subsets of failing destinations x {peer unreachable, remote log refuses, reply lost after the remote append} (local node: local log refuses) for a QoS 1 publish, a QoS 2 PUBREL, a QoS 0 publish, and the same with RETAIN and a zero-length payload (QoS 2 with DUP set)")
 }
